@@ -49,10 +49,10 @@ compare() { # cmd mode engine prop tagsA tagsB
     # first differing run
     run=$(diff <(grep -n '^run=' "$T/$eng-$ta.txt" | cut -d' ' -f1,3) <(grep -n '^run=' "$T/$eng-$tb.txt" | cut -d' ' -f1,3) | grep -o 'run=[0-9]*' | head -1 | cut -d= -f2)
     run=${run:-0}
-    f="replays/C18-xbuild-$eng-$seed-$run-$(echo "$ta-$tb" | tr ',' '+').json"
+    f="${VERIF_REPLAY_DIR:-replays}/C18-xbuild-$eng-$seed-$run-$(echo "$ta-$tb" | tr ',' '+').json"
     jq -n --arg e $eng --arg p $pr --argjson r $run --argjson s $seed --arg a "$ta" --arg b "$tb" --arg c $cmdp --arg m $mode \
        '{property:"C18", xbuild:true, "class":("C18/xbuild/transcript-differs/"+$e), engine:$e, property_of_engine:$p, run_index:$r, verif_seed:$s, tags_a:$a, tags_b:$b, cmd:$c, build:$m}' > "$f"
-    echo "VIOLATION property=C18 replay=$PWD/$f"
+    case "$f" in /*) echo "VIOLATION property=C18 replay=$f";; *) echo "VIOLATION property=C18 replay=$PWD/$f";; esac
     echo "  class=C18/xbuild/transcript-differs/$eng  builds [$ta] vs [$tb], first differing run $run"
     diff "$T/$eng-$ta.txt" "$T/$eng-$tb.txt" | head -8 | sed 's/^/  /'
     viol=$((viol+1))
@@ -87,7 +87,8 @@ fi
 code=$?
 if [ $viol -gt 0 ]; then
   # the evidence file was written by the harness without the cross-build violations: add them
-  tmp=$(mktemp); jq --argjson v $viol '.violations += $v' evidence/C18.json > $tmp && mv $tmp evidence/C18.json
+  ev=${VERIF_REPLAY_DIR:-evidence}/C18.json
+  tmp=$(mktemp); jq --argjson v $viol '.violations += $v' $ev > $tmp && mv $tmp $ev
   [ $code -eq 0 ] && code=1
 fi
 exit $code
